@@ -350,7 +350,7 @@ impl ThrCheck {
             prologue,
             threads,
             epilogue: vec![],
-            schedule: Schedule { preempt_at, at_point },
+            schedule: Schedule { preempt_at, at_point, spinner_comes_back: xrng.chance(1, 2) },
             hash_seed: xrng.next_u64(),
         };
         scn.epilogue = epilogue_for(&scn);
@@ -779,7 +779,7 @@ impl Check for ThrCheck {
             HostSel::BridgeBincode => run_bridge::<app1::App>(s, Wire::Bincode)?,
             HostSel::BridgeJson => run_bridge::<app1::App>(s, Wire::Json)?,
             HostSel::BridgeBincodeFx => run_bridge::<app2::App>(s, Wire::Bincode)?,
-            HostSel::Direct => return Err(viol("host_error", "no direct host in thrsim".into())),
+            HostSel::Direct | HostSel::Stream => return Err(viol("host_error", "no direct host in thrsim".into())),
         };
         for (k, v) in &totals.report.point_counts {
             cov.add(&format!("point:{k}"), *v);
@@ -788,6 +788,9 @@ impl Check for ThrCheck {
         cov.add("fault:preemption", u64::from(totals.report.preemptions));
         cov.add("fault:lock_wait_switch", totals.report.blocked_events);
         cov.add("probe:unavailable_requeue", totals.report.yield_events);
+        if std::env::var("VERIF_DEBUG").is_ok() {
+            eprintln!("trace: {}", totals.report.trace.iter().map(|(t, p)| format!("{t}:{p}")).collect::<Vec<_>>().join(" "));
+        }
         for (t, p) in &totals.report.trace {
             cov.trace(&format!("{t}{p}"));
         }
